@@ -349,6 +349,13 @@ func (rrs *RawRecordSet) WriteTo(w io.Writer) (int64, error) {
 }
 
 func makeTime(t int64) time.Time {
+	if t < 0 {
+		// -1: the record has no timestamp (written by a producer older than
+		// 0.10 and kept as such when the broker converts the message format).
+		// That is the zero time.Time, as on the Conn / Reader path, not the
+		// last millisecond of 1969.
+		return time.Time{}
+	}
 	return time.Unix(t/1000, (t%1000)*int64(time.Millisecond))
 }
 
